@@ -43,6 +43,8 @@ pub struct Eng {
     pub samples: Vec<String>,
     pub viol: BTreeMap<String, Viol>,
     pub extra: BTreeMap<String, i128>,
+    /// counters merged by maximum
+    pub maxes: BTreeMap<String, i128>,
     pub notes: Vec<String>,
 }
 
@@ -64,6 +66,7 @@ impl Eng {
             samples: Vec::new(),
             viol: BTreeMap::new(),
             extra: BTreeMap::new(),
+            maxes: BTreeMap::new(),
             notes: Vec::new(),
         }
     }
@@ -108,6 +111,10 @@ impl Eng {
         for (k, v) in o.extra {
             *self.extra.entry(k).or_insert(0) += v;
         }
+        for (k, v) in o.maxes {
+            let e = self.maxes.entry(k).or_insert(i128::MIN);
+            *e = (*e).max(v);
+        }
         for n in o.notes {
             if !self.notes.contains(&n) {
                 self.notes.push(n);
@@ -124,6 +131,10 @@ impl Eng {
     }
     pub fn count(&mut self, k: &str, n: i128) {
         *self.extra.entry(k.to_string()).or_insert(0) += n;
+    }
+    pub fn maxi(&mut self, k: &str, v: i128) {
+        let e = self.maxes.entry(k.to_string()).or_insert(i128::MIN);
+        *e = (*e).max(v);
     }
     pub fn sample<F: FnOnce() -> String>(&mut self, f: F) {
         if self.samples.len() < 3 {
@@ -178,6 +189,7 @@ impl Eng {
                 J::O(self
                     .extra
                     .iter()
+                    .chain(self.maxes.iter())
                     .map(|(k, v)| (k.clone(), J::I(*v)))
                     .collect()),
             ),
@@ -381,13 +393,25 @@ pub fn weak_orders(k: usize) -> Vec<Vec<usize>> {
     out
 }
 
+thread_local! {
+    static IN_GUARD: std::cell::Cell<u32> = const { std::cell::Cell::new(0) };
+}
+/// Panics inside `guard` are observations and stay silent; a panic anywhere else is a bug of
+/// the harness and is printed (the process then exits non-zero: machinery failure).
 pub fn install_quiet_panic_hook() {
-    std::panic::set_hook(Box::new(|_| {}));
+    std::panic::set_hook(Box::new(|info| {
+        if IN_GUARD.with(|g| g.get()) == 0 {
+            eprintln!("HARNESS PANIC (machinery failure, not a verdict): {}", info);
+        }
+    }));
 }
 
 /// Run `f`, turning a panic into an ordinary observation.
 pub fn guard<R, F: FnOnce() -> R>(f: F) -> Result<R, String> {
-    match catch_unwind(AssertUnwindSafe(f)) {
+    IN_GUARD.with(|g| g.set(g.get() + 1));
+    let res = catch_unwind(AssertUnwindSafe(f));
+    IN_GUARD.with(|g| g.set(g.get() - 1));
+    match res {
         Ok(r) => Ok(r),
         Err(p) => {
             let msg = if let Some(s) = p.downcast_ref::<&str>() {
